@@ -3,6 +3,7 @@ package main
 import (
 	"bufio"
 	"bytes"
+	"context"
 	"encoding/json"
 	"fmt"
 	"io"
@@ -23,7 +24,8 @@ func init() {
 			"complex keys, bad templates) at every position of the Taskfile schema (top level, includes, vars, tasks, every task / cmd / dep / for / " +
 			"requires / precondition / platform / output field); (b) real Taskfiles from /repo/testdata mutated: line terminators replaced by CR, " +
 			"CRLF, NEL, LS, PS, random byte flips, truncation, duplicated lines; (c) task names and requests with regexp metacharacters. Each document " +
-			"goes through Setup, ListTasks, ListTaskNames, FastCompiledTask of every task, GetTask of odd names under recover() and a 5 s bound. " +
+			"goes through Setup, ListTasks, ListTaskNames, FastCompiledTask of every task, GetTask of odd names, and then (documents of the grammar, not the mutated real ones) Run --dry, Run --dry --force --yes, " +
+			"Run --summary and Status of every task, all under recover() and a time bound. " +
 			"non-trivial = any document other than the unmodified corpus file; distinct by document bytes"}
 }
 
@@ -99,16 +101,66 @@ func evalDecodeInProc(d decodeCase) string {
 				_ = err.Error()
 			}
 		}
+		// run stages: the guards of RunTask / runCommand (platforms, requires, preconditions, prompts, the
+		// command loop with its per-command platforms, defers, for-loops) only see the decoded values when
+		// a task is RUN.  Dry mode keeps commands from executing (`sh:` variables, preconditions and status
+		// commands do run; the shape grammar only writes harmless ones there, so documents mutated from real
+		// Taskfiles are left out); --summary and --status are further readers of the same values.
+		if d.Kind != "mutated" {
+			mk := func(extra ...task.ExecutorOption) *task.Executor {
+				opts := append([]task.ExecutorOption{task.WithDir(dir), task.WithStdout(io.Discard), task.WithStderr(io.Discard),
+					task.WithStdin(strings.NewReader("")), task.WithSilent(true), task.WithTimeout(500 * time.Millisecond), task.WithOffline(true),
+					task.WithTempDir(task.TempDir{Remote: filepath.Join(dir, ".task"), Fingerprint: filepath.Join(dir, ".task")})}, extra...)
+				x := task.NewExecutor(opts...)
+				if x.Setup() != nil {
+					return nil
+				}
+				return x
+			}
+			reqs := append(append([]string{}, names...), d.Req)
+			for _, stage := range []string{"dry", "dry-force", "summary", "status"} {
+				var x *task.Executor
+				switch stage {
+				case "dry":
+					x = mk(task.WithDry(true))
+				case "dry-force":
+					x = mk(task.WithDry(true), task.WithForceAll(true), task.WithAssumeYes(true))
+				case "summary":
+					x = mk(task.WithSummary(true))
+				case "status":
+					x = mk(task.WithDry(true))
+				}
+				if x == nil {
+					break
+				}
+				for _, n := range reqs {
+					ctx, cancel := context.WithTimeout(context.Background(), 800*time.Millisecond)
+					var err error
+					if stage == "status" {
+						err = x.Status(ctx, &task.Call{Task: n})
+					} else {
+						err = x.Run(ctx, &task.Call{Task: n})
+					}
+					cancel()
+					if err != nil {
+						_ = err.Error()
+					}
+				}
+			}
+		}
 		res <- out
 	}()
 	var cls string
 	select {
 	case cls = <-res:
-	case <-time.After(5 * time.Second):
+	case <-time.After(decodeBound):
 		cls = "timeout"
 	}
 	return cls
 }
+
+// bound of one document (all stages); a document with many tasks runs each of them four times
+const decodeBound = 12 * time.Second
 
 // A panic in a goroutine Task itself starts (errgroup in GetTaskList, reader goroutines) cannot be
 // recovered here: it kills the process.  So documents are evaluated in a worker process (this
@@ -332,6 +384,8 @@ func runDecode(c *Ctx) {
 	emit(decodeCase{Kind: "corpus", Doc: hx("version: '3'\rtasks:\r  t:\r    cmds: {\r"), Note: "decode error in CR file"})
 	emit(decodeCase{Kind: "corpus", Doc: hx("version: '3'\ntasks:\n  'a(': {cmds: [echo]}\n  'x*': {cmds: [echo]}\n"), Req: "a(", Note: "regexp metachar name"})
 	emit(decodeCase{Kind: "corpus", Doc: hx("version: '3'\ntasks:\n  t:\n    sources:\n      - \n"), Note: "nil glob entry"})
+	emit(decodeCase{Kind: "corpus", Doc: hx("version: '3'\ntasks:\n  t:\n    requires: {vars: [A, ~]}\n    cmds: [echo]\n"), Note: "nil requires entry (crashed when the task was run)"})
+	emit(decodeCase{Kind: "corpus", Doc: hx("version: '3'\ntasks:\n  t:\n    platforms: [~]\n    cmds: [echo]\n  u:\n    cmds:\n      - cmd: echo\n        platforms: [~]\n"), Note: "nil platform entry at task and command level (crashed when the task was run)"})
 	emit(decodeCase{Kind: "corpus", Doc: hx("version: '3'\nvars:\n  A: 2024-01-01\ntasks: {t: {cmds: ['echo {{.A}}']}}\n"), Note: "timestamp variable"})
 	emit(decodeCase{Kind: "corpus", Doc: hx("version: '3'\ntasks: {build: {cmds: [echo]}}\n"), Req: strings.Repeat("a", 2500), Note: "very long unknown task name (did-you-mean lookup is cubic in the length)"})
 	emit(decodeCase{Kind: "corpus", Doc: hx("version: '3'\ntasks: {build: {aliases: [b], cmds: [echo]}}\n"), Req: strings.Repeat("build", 400), Note: "very long unknown task name made of a known one"})
